@@ -98,18 +98,41 @@ type replayPlan struct {
 }
 
 func tryReplay(o checkOpts, e *Engine, results []*funcResult, ob *Obligation, v *violation) bool {
-	if ob.Result != "sat" || ob.Model == "" {
-		v.Replay = "the solver gave no model (" + ob.Result + ")"
-		return false
-	}
 	var fr *funcResult
 	for _, r := range results {
 		if r.ctx.fn == ob.Fn {
 			fr = r
 		}
 	}
-	if fr == nil {
+	if fr == nil || fr.fn == nil {
 		v.Replay = "function not found for replay"
+		return false
+	}
+	// functions with string parameters: bounded search over a seed alphabet (strings are abstract in the models)
+	if ob.Kind == "ensures" && ob.Result != "unsat" {
+		if plan, why := e.planSearchReplay(fr, ob); plan != nil {
+			out, failed, err := runReplay(o, plan)
+			v.ReplayTest = plan.testSrc
+			if err == nil && failed {
+				v.Replay = "REPRODUCED on the real code by bounded search over the seed inputs:\n" + trunc(out, 1500)
+				v.Reproduced = true
+				return true
+			}
+			if err != nil {
+				v.Replay = "search replay could not run: " + err.Error() + "\n" + trunc(out, 1500)
+			} else {
+				v.Replay = "bounded search over the seed inputs found no failing input:\n" + trunc(out, 600)
+			}
+			if ob.Result != "sat" || ob.Model == "" {
+				return false
+			}
+		} else if ob.Result != "sat" || ob.Model == "" {
+			v.Replay = "the solver gave no model (" + ob.Result + "); " + why
+			return false
+		}
+	}
+	if ob.Result != "sat" || ob.Model == "" {
+		v.Replay = "the solver gave no model (" + ob.Result + ")"
 		return false
 	}
 	plan, why := e.planReplay(fr, ob)
@@ -474,6 +497,26 @@ func (g *goTranslator) expr(x *Expr) (string, bool) {
 				return "(" + g.args[g.fixed+k] + ")", true
 			}
 			return g.fail("arg out of range")
+		}
+		if f.Op == "ident" {
+			if gs, ok := goSpecFuncs[f.Name]; ok && len(x.Args) == 2 {
+				v, ok := g.expr(x.Args[1])
+				if !ok {
+					return "", false
+				}
+				for _, im := range gs.imports {
+					g.imports[im] = true
+				}
+				return fmt.Sprintf(gs.expr, v), true
+			}
+			if f.Name == "has" && len(x.Args) == 3 {
+				m, ok1 := g.expr(x.Args[1])
+				k, ok2 := g.expr(x.Args[2])
+				if !ok1 || !ok2 {
+					return "", false
+				}
+				return fmt.Sprintf("func() bool { _, ok := %s[%s]; return ok }()", m, k), true
+			}
 		}
 		if f.Op == "ident" && (f.Name == "abs") {
 			g.imports["math"] = true
